@@ -2,6 +2,7 @@
 //! Every harness states a contract (precondition via `assume`, postcondition via
 //! `assert!`) on the *real compiled crate*; nothing of ruint is copied here.
 #![allow(unused, clippy::all)]
+#![cfg_attr(kani, feature(allocator_api))]
 pub mod gen_macro_fns;
 pub mod oracle;
 pub mod sym;
@@ -26,8 +27,10 @@ pub mod c14;
 pub mod c18;
 pub mod c04;
 pub mod c03p;
+pub mod c09;
 pub mod c10;
 pub mod c13;
+pub mod c19;
 #[cfg(feature = "facades")]
 pub mod c20;
 
@@ -46,6 +49,8 @@ pub fn registry() -> Vec<(&'static str, fn())> {
     v.extend_from_slice(c03p::LIST);
     v.extend_from_slice(c03p::d8::LIST);
     v.extend_from_slice(c03p::d8m::LIST);
+    v.extend_from_slice(c09::LIST);
+    v.extend_from_slice(c19::LIST);
     v.extend_from_slice(c10::LIST);
     v.extend_from_slice(c10::z::LIST);
     v.extend_from_slice(c10::wide::LIST);
